@@ -195,6 +195,7 @@ func runC06(cfg Config, r *Result) {
 	r.Rule = "inputs: hand-written layouts, every evy program in /repo (docs code blocks, *.evy), the same decorated, and type-directed generated programs " +
 		"(plain / decorated with comments at line ends and on own lines, blank-line runs, multi-line array and map literals with comments / widened horizontal white space / stray tokens after `end`); " +
 		"and txtar archives of 1-7 members built from the accepted sources (members that grow when formatted: indentation removed, `x:=1`, no final newline; as written; already formatted; members that are not evy files; an archive comment; now and then a member that is not an accepted program) run through the built binary `evy fmt --write` / `--check`: every member must be what formatting it alone gives, everything else untouched; " +
+		"and accepted token mutants (every single-token deletion / insertion / substitution by a representative of every token kind, adjacent swaps, of one small program per header and statement form and of corpus programs: whatever the parser still accepts must keep its tokens, tree and behaviour); " +
 		"only inputs accepted by parser.Parse count; non-trivial = at least 6 words and a block, a comment or a multi-line literal; distinct = distinct source text"
 	c := &c06Ctx{model: model, r: r, maxRuns: cfg.N(700, 6000)}
 	go evyBinary() // built while the in-process cases run; used by the txtar archives at the end
@@ -241,6 +242,7 @@ func runC06(cfg Config, r *Result) {
 	} {
 		c06Check(c, fmtInput{w, "witness-stray-after-end"})
 	}
+	c06AcceptedMutants(cfg, c)
 	c06Txtars(cfg, c)
 }
 
